@@ -239,6 +239,23 @@ let show_outcome (id : String.t) (o : outcome) =
       Printf.sprintf "%s\tout=panic:%s\tval=nil\terrs=\t%s" id (hex_of_bytes pv) (show_final s)
   | Diverged -> Printf.sprintf "%s\tout=diverged" id
 
+let show_ref (cfg : cfg) (id : String.t) (o : routcome) =
+  let fin (m : rmu) =
+    let ts = relevant_terms m.u_log in
+    Printf.sprintf "cnt=%d\tmaxfail=%s:0:[%s]\tgs=%s\ttrace=%s"
+      (int_of_n m.u_cnt) (show_pos (far_pos ts))
+      (String.concat "," (List.map hex_of_bytes (far_expected ts)))
+      (show_gstore m.u_gs)
+      (String.concat ";" (List.rev_map show_event (blocks_of_log m.u_log))) in
+  match o with
+  | RReturned (v, errs, m) ->
+      Printf.sprintf "%s\tout=ret\tval=%s\terrs=%s\t%s" id (show_val v)
+        (String.concat "," (List.map (fun e -> hex_of_bytes (perr_string e)) errs)) (fin m)
+  | RPanicked (pv, m) -> Printf.sprintf "%s\tout=panic:%s\tval=nil\terrs=\t%s" id (hex_of_bytes pv) (fin m)
+  | RDiverged -> Printf.sprintf "%s\tout=diverged" id
+
+let ref_mode = ref false
+
 (* ---------- main ---------- *)
 let quirks = ref faithful
 let set_quirks (b : String.t) =
@@ -263,7 +280,8 @@ let run_case (fuel : int) (sx : sexp) : String.t =
         cData = hexb inp;
         cG = List.map rule_of rules;
         cE = env_of_blocks (List.map block_of blocks) } in
-      show_outcome id (parse cfg (nat_of_int fuel))
+      if !ref_mode then show_ref cfg id (rparse cfg (nat_of_int fuel))
+      else show_outcome id (parse cfg (nat_of_int fuel))
   | _ -> failwith "bad case"
 
 let read_file path =
@@ -290,6 +308,7 @@ let () =
               ("-cases", Arg.Set_string cases, "case file");
               ("-decode", Arg.Set_string dec, "file of hex strings: print decode results");
               ("-quirks", Arg.String set_quirks, "4 bits: lit_eof stale_ctx recover_scope memo_nocharge (default 1111 = faithful)");
+              ("-ref", Arg.Set ref_mode, "evaluate the specification (Ref) instead of the implementation model");
               ("-fuel", Arg.Set_int fuel, "fuel") ] (fun _ -> ()) "driver";
   if !dec <> "" then (decode_mode !dec; exit 0);
   if !tables <> "" then load_tables !tables;
